@@ -16,4 +16,18 @@ CLAIMED = {
                   'bounded CBMC + native replay for counterexamples',
         design='§6 C20'),
 }
+CLAIMED['C14'] = dict(
+    text='Proof (for any number of elements up to 1024 and any lengths, zero-length elements anywhere): iovector_view::sum, shrink_to, '
+         'do_extract_front with its three callbacks (discard / copy out / sub-vector), do_extract_back (discard; thorough tier), '
+         'extract_front_continuous, extract_back_continuous are lowered from /repo on every run; each loop of the real code is '
+         'verified by the Hoare loop rule (invariant over ghost prefix sums + ghost element index, instantiated textually on the '
+         'real loop) and the postconditions pin the whole resulting view to the remaining flat range, the return value to '
+         'min(request,total), copied bytes to the matching flat positions (observing memcpy stub) and all accesses to the '
+         'elements\' extents.  extract_back(buf/iov), slice, memcpy_iov, pipe_iov and the owning iovector wrappers are covered only '
+         'by the native differential run of the real code against a flat-string oracle (13 operations), not proved.',
+    note=TRUST + ' memcpy is a stub that checks ranges and tracks one solver-chosen byte; element buffers are abstract addresses '
+         '(their memory is not modelled); prefix-sum monotonicity is a separately proved lemma; total length <= 2^62.',
+    technique='deductive verification: Hoare loop rule instantiated on the real loops (cbmc + cvc5), ghost prefix sums and ghost indices; '
+              'native differential replay for counterexamples',
+    design='§6 C14')
 NA = {}
